@@ -287,6 +287,11 @@ static inline void shadow_access (uintptr_t addr, int size, int kind, uintptr_t 
 		rt_violation (NULL, V_NO_PROGRESS, "runaway", "20M memory accesses without reaching a synchronisation operation (unbounded loop) in %s", a);
 		end_run (RV_VIOLATION);
 	}
+	if (g.nwatch && (kind == 1 || kind == 3)) {
+		for (int i = 0; i < NSIM_MAXWATCH; i++) {
+			if (g.watch[i].active && g.watch[i].first_tid < 0 && addr < g.watch[i].addr + 4 && addr + size > g.watch[i].addr) g.watch[i].first_tid = f->tid;
+		}
+	}
 	Region *r = region_of (addr);
 	if (!r) return;
 	if (addr == g.suppress_addr) return;
@@ -357,6 +362,16 @@ static inline void shadow_access (uintptr_t addr, int size, int kind, uintptr_t 
 	}
 }
 
+extern "C" void nsim_watch_set (int slot, const void *p) {
+	if (slot < 0 || slot >= NSIM_MAXWATCH) return;
+	if (!g.watch[slot].active) g.nwatch++;
+	g.watch[slot].addr = (uintptr_t) p; g.watch[slot].first_tid = -1; g.watch[slot].active = 1;
+}
+extern "C" int nsim_watch_first_writer (int slot) { return (slot >= 0 && slot < NSIM_MAXWATCH && g.watch[slot].active) ? g.watch[slot].first_tid : -1; }
+extern "C" void nsim_watch_clear (int slot) {
+	if (slot < 0 || slot >= NSIM_MAXWATCH || !g.watch[slot].active) return;
+	g.watch[slot].active = 0; g.nwatch--;
+}
 extern "C" void nsim_guard_buffer (void *buf, int n, void *block, int blocklen) {
 	g.guard_buf = (uintptr_t) buf; g.guard_n = n; g.guard_block = (uintptr_t) block; g.guard_blocklen = blocklen;
 }
@@ -452,6 +467,7 @@ static void expire_deadlines () {
 		Fibre *f = &g.fib[i];
 		if ((f->st == F_FUTEX || f->st == F_PCOND || f->st == F_SLEEP) && f->has_deadline && f->deadline <= g.now) {
 			TRACE ("timer fires for t%d (deadline %lld)", f->tid, (long long) (f->deadline - g.start));
+			f->op_last_timer_wake_ns = g.now;
 			wake (f, ETIMEDOUT);
 		}
 	}
@@ -762,7 +778,7 @@ extern "C" int nsim_fibre_in_func (int tid, const char *fname) {
 extern "C" void nsim_op_begin (const char *name) {
 	Fibre *f = g.cur;
 	f->opname = name;
-	f->op_sleeps = 0; f->op_atomics = 0; f->op_idle_jumps = 0; f->op_last_timed_block_ns = -1;
+	f->op_sleeps = 0; f->op_atomics = 0; f->op_idle_jumps = 0; f->op_last_timed_block_ns = -1; f->op_last_timer_wake_ns = -1;
 	f->op_sp_top = (uintptr_t) __builtin_frame_address (0) + 16;
 	f->min_sp = f->op_sp_top;
 	hfold (0x0b00ULL << 32 | (uint64_t) (uintptr_t) name);
@@ -786,6 +802,7 @@ extern "C" int nsim_op_sleeps (void) { return g.cur->op_sleeps; }
 extern "C" int nsim_op_atomics (void) { return g.cur->op_atomics; }
 extern "C" int nsim_op_idle_jumps (void) { return g.cur->op_idle_jumps; }
 extern "C" int64_t nsim_op_last_timed_block_ns (void) { return g.cur->op_last_timed_block_ns; }
+extern "C" int64_t nsim_op_last_timer_wake_ns (void) { return g.cur->op_last_timer_wake_ns; }
 
 extern "C" int64_t nsim_now_ns (void) { return g.now; }
 extern "C" int64_t nsim_start_ns (void) { return g.start; }
@@ -1635,6 +1652,7 @@ void rt_reset_run (uint64_t seed) {
 	g.ctor_allocs = 0; g.nacquires = 0; g.fibres_total = 0;
 	g.spin_yields = 0; g.progress_mark = 0;
 	g.guard_block = 0;
+	memset (g.watch, 0, sizeof g.watch); g.nwatch = 0;
 	g.panic_msg[0] = 0;
 	g.alloc_failures = 0; g.no_write_window = 0; g.plain_since_sched = 0;
 	g.rng = rt_mix (seed, 0x5eed);
